@@ -352,13 +352,13 @@ def run(tier, seed):
         cases.append({"cls": n, "tag": "none", "obj": cg.obj(n, [], 0)})
         cases.append({"cls": n, "tag": "none+extra", "obj": cg.obj(n, [], 0, n_extra=2)})
         for a in attrs:                                             # each single attribute
-            for _ in range(2 if thorough else 1):
+            for _ in range(5 if thorough else 1):
                 cases.append({"cls": n, "tag": "single", "obj": cg.obj(n, [a], 0, n_extra=rng.choice([0, 0, 1]))})
-        for _ in range(12 if thorough else 3):                       # random subsets
+        for _ in range(60 if thorough else 3):                       # random subsets
             k = rng.randint(2, max(2, len(attrs)))
             sub = [a for a in rng.sample(attrs, min(k, len(attrs))) if a not in bare]
             cases.append({"cls": n, "tag": "subset", "obj": cg.obj(n, sub, 0, n_extra=rng.choice([0, 1, 3]))})
-        for _ in range(2 if thorough else 1):                        # all attributes
+        for _ in range(8 if thorough else 1):                        # all attributes
             cases.append({"cls": n, "tag": "all", "obj": cg.obj(n, [a for a in attrs if a not in bare], 0, n_extra=1, sub_size=3 if thorough else 2)})
     outs = evaluate(tpath, [{"op": "gen", "cls": c["cls"], "obj": c["obj"]} for c in cases], "c03_gen")
     bad_tables = {n for n, o in zip(names, wf) if o["viol"]}
@@ -468,7 +468,7 @@ def run(tier, seed):
             avps.append(Avp(99999990, 0, pv, 0))
             nodes.append({"name": list(b"Unknown"), "g": False, "leaf": cg.vals.add("raw", pv), "kids": []})
         return nodes, avps
-    for i in range(3000 if thorough else 400):
+    for i in range(20000 if thorough else 400):
         nodes, avps = ex_tree(0, True)
         m = Message()
         m.header.command_code = 8388100 + (i % 7)
